@@ -14,7 +14,10 @@ Definition py_slice (l : list A) (a b : Z) : list A :=
 
 (* track > n : POINTS[n : size] ;  track < n : POINTS[0 : size - n] *)
 Definition op_gt (l : list A) (n : Z) : list A := py_slice l n (Z.of_nat (length l)).
-Definition op_lt (l : list A) (n : Z) : list A := py_slice l 0 (Z.of_nat (length l) - n).
+(* track < n, repaired: POINTS[0 : max(0, size - n)] ; before the repair the end bound size - n went negative for n > size
+   and Python's slice counted it from the end (op_lt_old) *)
+Definition op_lt (l : list A) (n : Z) : list A := py_slice l 0 (Z.max 0 (Z.of_nat (length l) - n)).
+Definition op_lt_old (l : list A) (n : Z) : list A := py_slice l 0 (Z.of_nat (length l) - n).
 
 (* extract(i, j): POINTS[k] for k in range(i, j+1), indices in range *)
 Definition extract (l : list A) (i j : nat) : list A := firstn (S j - i) (skipn i l).
@@ -35,4 +38,21 @@ Definition op_mod_pattern (l : list A) (pat : list bool) : list A :=
 Fixpoint del_nth (l : list A) (i : nat) : list A :=
   match l, i with [], _ => [] | _ :: r, O => r | x :: r, S i' => x :: del_nth r i' end.
 Definition remove_ids (l : list A) (ids : list nat) : list A := fold_left del_nth (rev ids) l.
+
+(* track + track2 : the two observation lists appended *)
+Definition op_add (l1 l2 : list A) : list A := l1 ++ l2.
+
+(* extractSpanTime(tini, tfin): bounds swapped when reversed, keeps the observations with tini <= t <= tfin, in order *)
+Definition span (time : A -> Z) (l : list A) (a b : Z) : list A :=
+  let lo := Z.min a b in let hi := Z.max a b in filter (fun o => (lo <=? time o)%Z && (time o <=? hi)%Z) l.
+
+(* list.insert(k, o) for 0 <= k <= len *)
+Definition insert_at (l : list A) (k : nat) (o : A) : list A := firstn k l ++ o :: skipn k l.
+
+(* what "exactly the other observations, order kept" means: drop the observations whose (absolute) index is listed *)
+Fixpoint drop_ids (i : nat) (l : list A) (ids : list nat) : list A :=
+  match l with
+  | [] => []
+  | x :: r => if existsb (Nat.eqb i) ids then drop_ids (S i) r ids else x :: drop_ids (S i) r ids
+  end.
 End Ops.
